@@ -26,7 +26,8 @@ META = {
              "for the writer's own output (C06_json_to_json_idempotent_for_every_input, C06_json_to_json_keeps_the_events: whatever the "
              "reader model reads is the event list of values the writer model can write, so the output is a fixed point and reads back "
              "to the same events), and likewise MessagePack -> MessagePack for EVERY byte string the reader loop translates, whatever widths its "
-             "integers and lengths were spelled in (C06_msgpack_to_msgpack_idempotent_for_every_input); the two known findings on 32-bit floats are reproduced on the models "
+             "integers and lengths were spelled in (C06_msgpack_to_msgpack_idempotent_for_every_input); the round trip JSON -> MessagePack -> JSON = JSON -> JSON is proved for EVERY JSON input whose output "
+             "is shorter than 4 GiB (C06_json_msgpack_json_for_every_input); the two known findings on 32-bit floats are reproduced on the models "
              "(JsonFloat32Model.v: serialize_f32 / ryu's format32, diffed against the implementation; C06_f32_*_known_class_witness); and the "
              "round-trip clause is proved for the pair MessagePack/JSON: MessagePack->JSON->MessagePack reproduces what "
              "MessagePack->MessagePack writes, for every stream of values JSON can carry, and in the other direction, with no "
